@@ -398,7 +398,7 @@ class SymEx:
                 st.events.append(('drop', v, t['ty']['s'], t.get('line'), b.nid))
                 bi = t['target']; continue
             if k == 'switch':
-                d = self.operand(b, st, t['discr'])
+                d = self.simplify(st, self.operand(b, st, t['discr']))
                 if d[0] == 'c' and isinstance(d[1], (int, bool)):
                     val = int(d[1])
                     tgt = t['otherwise']
@@ -428,6 +428,31 @@ class SymEx:
             # other terminators: stop
             return
 
+    def simplify(self, st, d):
+        """Evaluate a branch term against what this path already knows."""
+        if d in st.known and isinstance(st.known[d], (bool, int)):
+            return ('c', st.known[d])
+        if d[0] == 'cmp' and d[1] in ('eq', 'ne'):
+            a, c = d[2], d[3]
+            for x, y in ((a, c), (c, a)):
+                if x[0] == 'c' and y[0] == 'discr' and y in st.known and isinstance(st.known[y], int) and not isinstance(st.known[y], bool):
+                    r = (st.known[y] == x[1])
+                    return ('c', r if d[1] == 'eq' else not r)
+        if d[0] == 'not':
+            x = self.simplify(st, d[1])
+            if x[0] == 'c':
+                return ('c', not x[1])
+        return d
+
+    def learn(self, st, d, truth):
+        """Derive discriminant knowledge from is_some()/is_none() style facts."""
+        if d[0] == 'cmp' and d[1] == 'eq':
+            for x, y in ((d[2], d[3]), (d[3], d[2])):
+                if x[0] == 'c' and y[0] == 'discr' and x[1] in (0, 1):
+                    st.known[y] = x[1] if truth else 1 - x[1]
+        if d[0] == 'not':
+            self.learn(st, d[1], not truth)
+
     def feasible_otherwise(self, d, taken, b, t):
         # for discriminants of two-variant enums with both arms listed, otherwise is unreachable
         return True
@@ -437,12 +462,12 @@ class SymEx:
         if not negated:
             if self.is_boolish(d) or d[0] in ('call', 'fld', 'param', 'payload', 'unk', 'ovf', 'boolor', 'booland'):
                 if len(arms) == 1 and arms[0][0] == 0:
-                    st.conds.append((d, False)); st.known[d] = False; return
+                    st.conds.append((d, False)); st.known[d] = False; self.learn(st, d, False); return
             st.conds.append((d, val)); st.known[d] = val
         else:
             # otherwise-branch: not any of the listed values
             if len(val) == 1 and val[0] == 0 and d[0] != 'discr':
-                st.conds.append((d, True)); st.known[d] = True
+                st.conds.append((d, True)); st.known[d] = True; self.learn(st, d, True)
             elif len(val) == 1 and d[0] == 'discr':
                 # two-variant enum: the other one
                 other = 1 - val[0] if val[0] in (0, 1) else None
@@ -503,7 +528,7 @@ class SymEx:
 
     # the intrusive list, its cache-level wrappers and the sketch are primitives of the cache-level analysis
     OPAQUE_MODULES = ('common::deque::', 'common::frequency_sketch::', 'unsync::deques::', 'common::concurrent::deques::',
-                      '<common::deque::')
+                      '<common::deque::', 'common::time::clock::')
 
     PURE_EXT_LAST = {'checked_add', 'checked_sub', 'from_secs', 'from_millis', 'from_micros', 'from_nanos', 'hash_one', 'eq', 'ne',
                      'ptr_eq', 'max', 'min', 'next_power_of_two', 'count_ones', 'try_into', 'as_secs', 'as_millis', 'pow',
